@@ -125,6 +125,17 @@ func checkEvalTotal(c evalCase) (msg string, class string) {
 		defer cancel()
 	}
 	out := obs.Eval(r, ctx, p.Src.Expression)
+	if out.Panic == nil {
+		// the runner is the caller's to keep: the same evaluation once more on the runner that has just
+		// served (and possibly failed) the first one must again come back with a value or an error
+		again := obs.Eval(r, ctx, p.Src.Expression)
+		if again.Panic != nil {
+			return fmt.Sprintf("Resolve(%q) on the runner that had evaluated the same formula before (outcome %s) panicked: %v", f, out, again.Panic), "panic"
+		}
+		if again.Err != nil && again.Val != nil {
+			return fmt.Sprintf("Resolve(%q), second time on the same runner, returned both a value (%s) and an error (%v)", f, obs.Show(again.Val), again.Err), "both"
+		}
+	}
 	switch {
 	case out.Panic != nil:
 		return fmt.Sprintf("Resolve(%q) panicked: %v", f, out.Panic), "panic"
